@@ -372,7 +372,7 @@ def examine_reapply(case):
 
 def examine(case):
     global _PATHS
-    if case.get("host_stack") and not case.get("_inside"):
+    if not case.get("_inside"):
         # queries of hundreds / thousands of segments: whatever happens (a result, or the interpreter's recursion
         # limit hit inside the evaluator's pipeline) must happen identically through every entry point
         with lib.host_stack():
